@@ -256,7 +256,23 @@ class VFile:
             self.world.io_events.append(("close", self.name))
 
     def __iter__(self):
-        return iter(self.world.read_lines(self.name))
+        return self
+
+    def __next__(self):
+        # a file object is its own iterator (next(f) reads the next line)
+        if not hasattr(self, "_lines"):
+            self._lines = list(self.world.read_lines(self.name))
+            self._pos = 0
+        if self._pos >= len(self._lines):
+            raise StopIteration
+        self._pos += 1
+        return self._lines[self._pos - 1]
+
+    def readline(self):
+        try:
+            return next(self)
+        except StopIteration:
+            return ""
 
     def __enter__(self):
         return self
@@ -464,7 +480,10 @@ class World:
         gc.collect()      # file objects that became unreachable are closed (CPython does so by reference counting)
         out = []
         cur = ""
-        for rec in self.fs.get(name, []):
+        recs = self.fs.get(name, [])
+        if recs and all(isinstance(rec, RawLine) for rec in recs):
+            return list(recs)           # pre-seeded abstract lines (a contract's stand-in for file content it cannot know)
+        for rec in recs:
             if isinstance(rec, tuple) and rec[0] == "print":
                 _, args, sep, end = rec
                 cur += sep.join(str(a) for a in args) + end
@@ -607,6 +626,10 @@ class SymRat:
 
     def __repr__(self):
         return "<symrat /%d>" % self.den
+
+
+class RawLine(str):
+    """A line of a pre-seeded virtual file handed to the reader as it is (see World.read_lines)."""
 
 
 class SymBytes:
